@@ -93,6 +93,7 @@ SLoadAllowed(ev) ==
   LET sl == Slots(ev.fields) IN
   /\ ev.out = "ok"
   /\ Len(ev.got) = Len(sl)
+  /\ Len(ev.image) = TotalSize(ev.fields)       \* the image has the size the ABI prescribes
   /\ \A i \in 1..Len(sl) :
        LET d == SlotDecoded(ev.image, sl[i]) IN
        IF sl[i].cls = "p" /\ IsZero(d) THEN Eq(ev.got[i], FromInt(-1)) ELSE Eq(ev.got[i], d)
